@@ -15,6 +15,11 @@ CLAIMS = {
                 ref='§4 C08'),
 }
 
+CLAIMS['C19'] = dict(level='proof', technique='language equivalence of deterministic automata: regex -> NFA -> DFA vs. validator (transition table read from the literal / abstract interpretation of the boolean slice expression), product construction with shortest distinguishing string',
+    text='Decides, for every (check_fn, regex) pair in the CHARACTER_DATA literal, equality of the accepted language with the language of the published regex over ALL byte strings (not samples), and absence of index panics in the validator; refuted pairs are reported with a shortest distinguishing string (4 such pairs on the pinned tree are listed in known_findings.json; 2 were repaired by fix: commits).',
+    note='Trusted: syn + asd-syn, the regex parser (XSD semantics: "." excludes \\n and \\r) and automata library, the validator shape recognisers (fail closed outside the fragment). obligations = pairs; discharged = pairs proven equal; the difference is exactly the known findings.',
+    ref='§4 C19')
+
 NA = {
     'C16': 'serialisability quantifies over interleavings and compares with sequential runs; the only static route (two-phase/reduction analysis) rejects essentially every public operation of the present design, so it cannot separate code that holds the property from code that does not',
     'C20': 'statement about numeric results (exactness, correct rounding, overflow per width) computed by std parsers for all texts; no static argument in reach bounds these run-time quantities',
